@@ -30,6 +30,9 @@ def props():
         mm = re.match(r"c(\d\d)\.py$", f)
         if mm:
             out.append("C" + mm.group(1))
+    only = os.environ.get("JAWK_ONLY_PROPS")
+    if only:
+        out = [p for p in out if p in only.split(",")]
     return out
 
 
@@ -88,7 +91,7 @@ def main():
                 det[p] = new
         caught = own in det
         json.dump({"seed": sid, "property": own, "caught_by_own_check": caught, "reports": det, "repo_head": head},
-                  open(os.path.join(sd, "detect.json"), "w"), indent=1)
+                  open(os.path.join(sd, "detect.json" if not os.environ.get("JAWK_ONLY_PROPS") else "detect-only.json"), "w"), indent=1)
         rules = sorted({h.split(" ")[0] for h in det.get(own, [])})
         print("%-10s %-7s own-rules=%s others=%s" % (sid, "CAUGHT" if caught else ("other" if det else "MISSED"), rules,
                                                      sorted(k for k in det if k != own)), flush=True)
